@@ -170,6 +170,27 @@ pub fn run(ctx: &Ctx) -> i32 {
             check_case(ctx, st, &cases[i], Settings::new(REP));
         });
     }
+    // one long test case without immediate repetitions except at a junction placed on / next to a size at which
+    // windows, chunks and caches tend to end (64 ... 1024 graphemes)
+    {
+        let mut cases: Vec<(String, Settings)> = vec![];
+        let bounds: &[usize] = if ctx.thorough { &[64, 128, 256, 300, 512, 1000, 1024] } else { &[128, 256, 512] };
+        for (j, (name, _, _, _)) in gen::JUNCTIONS.iter().enumerate() {
+            let cls = if name.ends_with("digits") { DIGIT } else if name.ends_with("letters") { WORD } else if name.ends_with("blanks") { SPACE } else { 0 };
+            for b in bounds {
+                for d in [-1isize, 0, 1] {
+                    cases.push((gen::boundary_case(j, *b, d, 9 + j), Settings::new(REP | cls)));
+                }
+            }
+            if !ctx.thorough && j % 3 == (seed as usize) % 3 {
+                cases.push((gen::boundary_case(j, 1024, 0, 9 + j), Settings::new(REP | cls)));
+            }
+        }
+        par_for(&ctx.run, cases.len(), |i, st| {
+            st.count("junctions_at_window_sizes");
+            check_case(ctx, st, &[cases[i].0.clone()], cases[i].1);
+        });
+    }
     // random repeat-rich families x other settings
     let n = if ctx.thorough { 300_000 } else { 12_000 };
     let names = ["ab", "abc", "meta", "graph", "astral", "classes", "case", "ws", "clusters", "tokens"];
